@@ -80,6 +80,7 @@ RefOutcomeFn(f, a) ==
   ELSE FN(f).out[a + 1]
 ScriptFree(f) == FN(f).script = <<>> /\ \A c \in ConsOfFn(f) : CON(c).script = <<>> /\ CON(c).escript = <<>>
                                     /\ CON(c).rv = "bool" /\ CON(c).err # "badfactory"
+                 /\ \A n \in DOMAIN FN(f).snap : SNP(FN(f).snap[n]).rv = "bool" /\ SNP(FN(f).snap[n]).script = <<>>
 \* argument of the call the driver of task t made last
 LastArg(t) == prog.drv[t][stack[t][1].pos - 1].a
 \* the verdict of a call depends only on the call: checked where the driver of a task gets the outcome
